@@ -9,7 +9,8 @@ namespace `Qmc`. The whole-step model of the generic sampler needs both. The cop
     `do_loop_updates` replays this function against `Qmc::timestep`), and
 (b) to the original by `Qmc.Sampler.stepLoop_eq` (QmcProofs/SamplerLoopEq.lean):
     `StepLoop.loopUpdate = Qmc.loopUpdate`, so C04's theorems transfer.
-Regenerate with the script in design_notes/FullStep.md if Loop.lean changes. Core Lean only.
+Regenerate as described in design_notes/FullStep.md if Loop.lean changes (last sync: F22, start leg = one draw over all
+variable slots via `totalVars` / `pickLeg`). Core Lean only.
 -/
 import QmcModel.Basic
 import QmcModel.Rand
@@ -97,18 +98,30 @@ def varHasOps (slots : Slots) (v : Nat) : Bool := !(occV slots v).isEmpty
 
 /-! ### the update -/
 
-/-- start selection: `(position, leg)`; three draws -/
+/-- `total_vars`: number of variable slots of all ops (`while let Some(p) = next` loop) -/
+def totalVars : Slots → Nat
+  | [] => 0
+  | none :: t => totalVars t
+  | some op :: t => op.vars.length + totalVars t
+
+/-- the walk `if choice < n_vars {break (p, choice)}; choice -= n_vars; p = next_p.unwrap()` over
+the ops in chain order, `p` = position of the head of the remaining list; `none` = the walk ran
+off the end (`unwrap` panics; impossible for `choice < total_vars`). -/
+def pickLeg : Slots → Nat → Nat → Option (Nat × Nat)
+  | [], _, _ => none
+  | none :: t, p, c => pickLeg t (p + 1) c
+  | some op :: t, p, c =>
+    if c < op.vars.length then some (p, c) else pickLeg t (p + 1) (c - op.vars.length)
+
+/-- start selection: `(position, leg)`; two draws: the variable slot among all legs' variables,
+then the side -/
 def loopStart (slots : Slots) (rs : RS) : Option (Nat × Leg) × RS :=
-  let (a, rs) := rs.genRange (countOps slots)
-  match nthOp slots a with
+  let (a, rs) := rs.genRange (totalVars slots)
+  match pickLeg slots 0 a with
   | none => (none, { rs with panicked := true })
-  | some p =>
-    match slots[p]? with
-    | some (some op) =>
-      let (b, rs) := rs.genRange op.vars.length
-      let (c, rs) := rs.genStdBool
-      if rs.panicked || rs.short then (none, rs) else (some (p, ⟨b, !c⟩), rs)
-    | _ => (none, { rs with panicked := true })
+  | some (p, b) =>
+    let (c, rs) := rs.genStdBool
+    if rs.panicked || rs.short then (none, rs) else (some (p, ⟨b, !c⟩), rs)
 
 structure LoopSt where
   state : List Bool
